@@ -87,7 +87,14 @@ def _task_function(qname):
     def body():
         try:
             c = _REG.contracts[qname]
-            rep = verify.verify_function(_REG, c)
+            prof = os.environ.get('PYVC_PROFILE')
+            if prof and prof in qname:
+                import cProfile
+                pr = cProfile.Profile()
+                rep = pr.runcall(verify.verify_function, _REG, c)
+                pr.dump_stats('/tmp/pyvc-profile-%d.prof' % os.getpid())
+            else:
+                rep = verify.verify_function(_REG, c)
             result['rep'] = _summarize(c, rep)
         except BaseException:
             result['crash'] = traceback.format_exc()
@@ -137,6 +144,7 @@ def _summarize(c, rep):
         'source': rep.source, 'sha256': rep.sha, 'wall': rep.wall, 'solver_time': solver_time,
         'by_backend': by_backend, 'vcs': vcs, 'samples': samples,
         'unknown_feasibility': rep.unknown_feasibility, 'feasibility_queries': rep.feasibility_queries,
+        'slow_queries': [list(q) for q in rep.slow_queries[:20]],
     }
 
 
@@ -311,6 +319,9 @@ def report(prop, mine, results, missing, seed, wall, args):
             continue
         if r['kind'] == 'function':
             rep = r['rep']
+            if args.verbose:
+                for q in rep.get('slow_queries', []):
+                    print('SLOW-FEASIBILITY %s: %s' % (rep['qname'], str(q)[:600]))
             functions.append({'name': rep['qname'], 'source': rep['source'], 'sha256': rep['sha256'],
                               'paths': rep['paths'], 'outcomes': rep['outcomes'],
                               'clauses': len(rep['clauses']), 'wall_s': round(rep['wall'], 2),
